@@ -321,9 +321,9 @@ def run(ctx: Ctx, col=None) -> None:
             ctx.count("disagreements_checked")
             ndiff += 1
             if not bad:
-                ctx.violation("a real ClassIR graph violates the well-formedness the vtable theorem assumes (WF)",
-                              {"broken": "VTable.WF on dumped ClassIR", "kind": "vtable", "source": src,
-                               "model_input": model_line(real)}, found_input=False)
+                violation_nf(ctx, "vt-wf", "a real ClassIR graph violates the well-formedness the vtable theorems assume (WF / subclassesComplete)",
+                             {"broken": "VTable.WF on dumped ClassIR", "kind": "vtable", "source": src,
+                              "model_input": model_line(real)})
             continue
         mclasses = [p.strip() for p in parts[1:]]
         rclasses = [real_class_line(r) for r in real["classes"]]
@@ -352,10 +352,10 @@ def run(ctx: Ctx, col=None) -> None:
                              {"broken": "correspondence Driver/C05 `V` vs compute_vtable", "kind": "vtable", "source": src,
                               "class": real["cls_names"][k], "model": mstrip[k] if k < len(mstrip) else None,
                               "impl": rclasses[k]})
-        elif any(m.endswith("g=0") for m in mclasses):
+        elif any(" g=0" in m for m in mclasses):
             ndiff += 1
-            ctx.violation("model predicts a missing glue method (KeyError) but the front half compiled the hierarchy",
-                          {"broken": "VTable.glueOk vs handle_ext_method", "kind": "vtable", "source": src}, found_input=False)
+            violation_nf(ctx, "vt-glue", "model predicts a missing glue method (KeyError) but the front half compiled the hierarchy",
+                         {"broken": "VTable.glueOk vs handle_ext_method", "kind": "vtable", "source": src})
     # crashes: the model must predict the KeyError (glue gap) — any other crash is reported as such
     for (h, src, _, fr), mline in zip(crashed, out[len(lines):]):
         kind = type(fr.crash).__name__
